@@ -1,4 +1,6 @@
 (* C10 model driver: one script per line (same ops as harness/src/bin/srvstop.rs), one output line:
+   (extra ops here: B<n> = message_buffer_capacity n, first op only; cW = WS connection whose client has a tiny
+   receive buffer; P<n> reply padding in KiB; q<c>/g<c> client reader paused/resumed; A = open every gate at once)
    the SET of canonical fact lines the extracted LTS (coq/Model/Stop.v) can produce for that script, over every
    interleaving of the server's internal steps between and after the scripted client/owner operations,
    sorted and joined by " | ".  The implementation's line must be a member.
@@ -165,9 +167,9 @@ let do_op (op : string) (sts : d list) : d list =
   let all = List.map fst cl in
   let each f = dedup (List.map f all) in
   match op with
-  | "cw" | "ch" ->
+  | "cw" | "cW" | "ch" ->
     each (fun st ->
-        let (m', o) = apply st.m (Connect (if op = "cw" then KWs else KHttp)) in
+        let (m', o) = apply st.m (Connect (if op = "ch" then KHttp else KWs)) in
         if ok o then { st with m = m'; cmap = st.cmap @ [Some (List.length st.m.s_conns)]; readn = st.readn @ [0] }
         else { st with cmap = st.cmap @ [None]; readn = st.readn @ [0] })
   | "S" ->
@@ -193,10 +195,15 @@ let do_op (op : string) (sts : d list) : d list =
           { st with have_watch = true }
         else { st with m = fst (apply st.m CloneHandle); watchers = st.watchers + 1; have_watch = true })
   | "p" -> dedup all
+  | "A" -> each (fun st -> { st with released = List.init (List.length st.calls) (fun i -> i) })
   | "Z" -> dedup (wait op (fun s -> s.have_watch && s.stopped_logged) cl)
   | _ ->
     let n = arg op in
     (match op.[0] with
+     | 'B' ->
+       (* message_buffer_capacity: only as the first op *)
+       each (fun st -> if st == d0 || st = d0 then { st with m = init_cap (nat_of_int n) } else failwith "B must come first")
+     | 'P' | 'q' | 'g' -> dedup all      (* reply padding / client reader paused / resumed: invisible to the model *)
      | 's' ->
        each (fun st ->
            let late = st.stopped_logged in
